@@ -87,7 +87,7 @@ package engine
 //@     after anyfail := anyfail || t_tfailed
 //@     after nfork := nfork + 1
 //@     after R := ite(t_tret, setadd(R, b_rr.RuleName), R)
-//@   ensures [C05] errpolicy: rb != nil && len(rb.Kc.RuleEntities) > 0 ==> ((result != nil) <==> anyfail)
+//@   ensures [C05,C09] errpolicy: rb != nil && len(rb.Kc.RuleEntities) > 0 ==> ((result != nil) <==> anyfail)
 //@   ensures [C11] resultmap: rb != nil ==> fresh(g.returnResult) && dom(g.returnResult) == R
 //@   ensures [C11,C06] newmap: rb != nil ==> g.returnResult != nil && fresh(g.returnResult)
 //@   modifies frame rulerun, g.returnResult
@@ -112,7 +112,7 @@ package engine
 //@   use seqmonitor(S, false, false)
 //@   use forkghosts()
 //@   use forkmonitor($1, S, 1, 0, cursor == 1 && !failed)
-//@   ensures [C05] mix: rb != nil && len(S) > 0 ==> cursor == 1 && ((result != nil) <==> (failed || cfailed)) && (nfork == 0 || nfork == len(S) - 1) && (nfork == 0 ==> (failed || len(S) == 1)) && (failed ==> nfork == 0)
+//@   ensures [C05,C09] mix: rb != nil && len(S) > 0 ==> cursor == 1 && ((result != nil) <==> (failed || cfailed)) && (nfork == 0 || nfork == len(S) - 1) && (nfork == 0 ==> (failed || len(S) == 1)) && (failed ==> nfork == 0)
 //@   ensures [C05] norules: rb == nil || len(S) == 0 ==> result != nil && cursor == 0 && nfork == 0
 //@   ensures [C11] resultmap: rb != nil ==> !pend && fresh(g.returnResult) && dom(g.returnResult) == R
 //@   ensures [C11,C06] newmap: rb != nil ==> g.returnResult != nil && fresh(g.returnResult)
@@ -134,7 +134,7 @@ package engine
 //@   use seqmonitor(S, sTag.StopTag, false)
 //@   use forkghosts()
 //@   use forkmonitor($1, S, 1, 0, cursor == 1 && !failed && !stopped)
-//@   ensures [C05,C14] mix: rb != nil && len(S) > 0 ==> cursor == 1 && ((result != nil) <==> (failed || cfailed)) && (nfork == 0 || nfork == len(S) - 1) && (nfork == 0 ==> (failed || stopped || len(S) == 1)) && (failed ==> nfork == 0)
+//@   ensures [C05,C14,C09] mix: rb != nil && len(S) > 0 ==> cursor == 1 && ((result != nil) <==> (failed || cfailed)) && (nfork == 0 || nfork == len(S) - 1) && (nfork == 0 ==> (failed || stopped || len(S) == 1)) && (failed ==> nfork == 0)
 //@   ensures [C14] stopnofork: stopped ==> nfork == 0
 //@   ensures [C05] norules: rb == nil || len(S) == 0 ==> result != nil && cursor == 0 && nfork == 0
 //@   ensures [C11] resultmap: rb != nil ==> !pend && fresh(g.returnResult) && dom(g.returnResult) == R
@@ -162,8 +162,8 @@ package engine
 //@   use forkmonitor($1, S, 0, 0, cursor == 0)
 //@   oncall (*base.RuleEntity).Execute
 //@     assert [C05] barrier: len(S) > 2 ==> stage == 1 && nfork == len(S) - 1 && cursor == 0 && !cfailed
-//@   ensures [C05] small: rb != nil && 0 < len(S) && len(S) <= 2 ==> nfork == 0 && ((result != nil) <==> failed) && (!failed ==> cursor == len(S))
-//@   ensures [C05] invmix: rb != nil && len(S) > 2 ==> nfork == len(S) - 1 && ((result != nil) <==> (failed || cfailed)) && (cursor == 1 || cursor == 0) && (cursor == 0 <==> cfailed)
+//@   ensures [C05,C09] small: rb != nil && 0 < len(S) && len(S) <= 2 ==> nfork == 0 && ((result != nil) <==> failed) && (!failed ==> cursor == len(S))
+//@   ensures [C05,C09] invmix: rb != nil && len(S) > 2 ==> nfork == len(S) - 1 && ((result != nil) <==> (failed || cfailed)) && (cursor == 1 || cursor == 0) && (cursor == 0 <==> cfailed)
 //@   ensures [C05] norules: rb == nil || len(S) == 0 ==> result != nil && cursor == 0 && nfork == 0
 //@   ensures [C11] resultmap: rb != nil ==> !pend && fresh(g.returnResult) && dom(g.returnResult) == R
 //@   ensures [C11,C06] newmap: rb != nil ==> g.returnResult != nil && fresh(g.returnResult)
@@ -285,7 +285,7 @@ package engine
 //@   use forkmonitor($1, rules, 0, 0, cursor == 0 && len(rules) >= 2)
 //@   oncall (*base.RuleEntity).Execute
 //@     assert [C12] single: len(rules) == 1
-//@   ensures [C12] all: cursor + nfork > 0 ==> cursor + nfork == len(rules) && ((result != nil) <==> (failed || cfailed))
+//@   ensures [C12,C09] all: cursor + nfork > 0 ==> cursor + nfork == len(rules) && ((result != nil) <==> (failed || cfailed))
 //@   ensures [C12] nothingselected: cursor + nfork == 0 ==> result != nil
 //@   ensures [C12] existingrun: rb != nil && len(KC0.SortRules) > 0 && len(KC0.RuleEntities) > 0 && (exists qi :: 0 <= qi && qi < len(names) && (names[qi] in KC0.RuleEntities)) ==> cursor + nfork > 0
 //@   ensures [C11] resultmap: rb != nil ==> !pend && fresh(g.returnResult) && dom(g.returnResult) == R
@@ -315,7 +315,7 @@ package engine
 //@   use seqmonitor(rules, false, false)
 //@   use forkghosts()
 //@   use forkmonitor($2, rules, 1, 0, cursor == 1 && !failed && len(rules) >= 3)
-//@   ensures [C05,C12] mix: cursor > 0 ==> ((result != nil) <==> (failed || cfailed)) && (len(rules) >= 3 ==> cursor == 1 && (nfork == 0 || nfork == len(rules) - 1) && (nfork == 0 <==> failed)) && (len(rules) <= 2 ==> nfork == 0 && (!failed ==> cursor == len(rules)))
+//@   ensures [C05,C12,C09] mix: cursor > 0 ==> ((result != nil) <==> (failed || cfailed)) && (len(rules) >= 3 ==> cursor == 1 && (nfork == 0 || nfork == len(rules) - 1) && (nfork == 0 <==> failed)) && (len(rules) <= 2 ==> nfork == 0 && (!failed ==> cursor == len(rules)))
 //@   ensures [C12] nothingselected: cursor == 0 ==> result != nil && nfork == 0
 //@   ensures [C12] existingrun: rb != nil && len(KC0.SortRules) > 0 && len(KC0.RuleEntities) > 0 && (exists qi :: 0 <= qi && qi < len(names) && (names[qi] in KC0.RuleEntities)) ==> cursor + nfork > 0
 //@   ensures [C11] resultmap: rb != nil ==> !pend && fresh(g.returnResult) && dom(g.returnResult) == R
@@ -353,8 +353,8 @@ package engine
 //@   use forkmonitor($2, rules, 0, 0, cursor == 0 && len(rules) > 2)
 //@   oncall (*base.RuleEntity).Execute
 //@     assert [C05,C12] barrier: len(rules) > 2 ==> stage == 1 && nfork == len(rules) - 1 && cursor == 0 && !cfailed
-//@   ensures [C05,C12] small: 0 < len(rules) && len(rules) <= 2 ==> nfork == 0 && ((result != nil) <==> failed) && (!failed ==> cursor == len(rules))
-//@   ensures [C05,C12] invmix: len(rules) > 2 ==> nfork == len(rules) - 1 && ((result != nil) <==> (failed || cfailed)) && (cursor == 1 || cursor == 0) && (cursor == 0 <==> cfailed)
+//@   ensures [C05,C12,C09] small: 0 < len(rules) && len(rules) <= 2 ==> nfork == 0 && ((result != nil) <==> failed) && (!failed ==> cursor == len(rules))
+//@   ensures [C05,C12,C09] invmix: len(rules) > 2 ==> nfork == len(rules) - 1 && ((result != nil) <==> (failed || cfailed)) && (cursor == 1 || cursor == 0) && (cursor == 0 <==> cfailed)
 //@   ensures [C12] nothingselected: rb != nil && len(rules) == 0 ==> result != nil && cursor == 0 && nfork == 0
 //@   ensures [C12] existingrun: rb != nil && len(KC0.SortRules) > 0 && len(KC0.RuleEntities) > 0 && (exists qi :: 0 <= qi && qi < len(names) && (names[qi] in KC0.RuleEntities)) ==> cursor + nfork > 0
 //@   ensures [C11] resultmap: rb != nil ==> !pend && fresh(g.returnResult) && dom(g.returnResult) == R
@@ -389,8 +389,8 @@ package engine
 //@   use forkghosts()
 //@   use forkmonitor($1, S, nSort, 0, cursor == nSort && (b || !failed))
 //@   ensures [C05] invalid: rb == nil || nSort <= 0 || mConcurrent <= 0 || nSort + mConcurrent > len(S) ==> result != nil && cursor == 0 && nfork == 0
-//@   ensures [C05] contall: rb != nil && nSort > 0 && mConcurrent > 0 && nSort + mConcurrent <= len(S) && b ==> cursor == nSort && nfork == mConcurrent && ((result != nil) <==> (failed || cfailed))
-//@   ensures [C05] stopfirst: rb != nil && nSort > 0 && mConcurrent > 0 && nSort + mConcurrent <= len(S) && !b ==> (failed ==> result != nil && nfork == 0) && (!failed ==> cursor == nSort && nfork == mConcurrent && ((result != nil) <==> cfailed))
+//@   ensures [C05,C09] contall: rb != nil && nSort > 0 && mConcurrent > 0 && nSort + mConcurrent <= len(S) && b ==> cursor == nSort && nfork == mConcurrent && ((result != nil) <==> (failed || cfailed))
+//@   ensures [C05,C09] stopfirst: rb != nil && nSort > 0 && mConcurrent > 0 && nSort + mConcurrent <= len(S) && !b ==> (failed ==> result != nil && nfork == 0) && (!failed ==> cursor == nSort && nfork == mConcurrent && ((result != nil) <==> cfailed))
 //@   ensures [C11] resultmap: rb != nil ==> !pend && fresh(g.returnResult) && dom(g.returnResult) == R
 //@   ensures [C11,C06] newmap: rb != nil ==> g.returnResult != nil && fresh(g.returnResult)
 //@   modifies frame rulerun, g.returnResult
@@ -419,8 +419,8 @@ package engine
 //@   oncall (*base.RuleEntity).Execute
 //@     assert [C05] barrier: stage == 1 && nfork == nConcurrent && (b || !cfailed) && cursor < mSort
 //@   ensures [C05] invalid: rb == nil || nConcurrent <= 0 || mSort <= 0 || nConcurrent + mSort > len(S) ==> result != nil && cursor == 0 && nfork == 0
-//@   ensures [C05] contall: rb != nil && nConcurrent > 0 && mSort > 0 && nConcurrent + mSort <= len(S) && b ==> cursor == mSort && nfork == nConcurrent && ((result != nil) <==> (failed || cfailed))
-//@   ensures [C05] stopfirst: rb != nil && nConcurrent > 0 && mSort > 0 && nConcurrent + mSort <= len(S) && !b ==> nfork == nConcurrent && (cfailed ==> result != nil && cursor == 0) && (!cfailed && failed ==> result != nil) && (!cfailed && !failed ==> cursor == mSort && result == nil)
+//@   ensures [C05,C09] contall: rb != nil && nConcurrent > 0 && mSort > 0 && nConcurrent + mSort <= len(S) && b ==> cursor == mSort && nfork == nConcurrent && ((result != nil) <==> (failed || cfailed))
+//@   ensures [C05,C09] stopfirst: rb != nil && nConcurrent > 0 && mSort > 0 && nConcurrent + mSort <= len(S) && !b ==> nfork == nConcurrent && (cfailed ==> result != nil && cursor == 0) && (!cfailed && failed ==> result != nil) && (!cfailed && !failed ==> cursor == mSort && result == nil)
 //@   ensures [C11] resultmap: rb != nil ==> !pend && fresh(g.returnResult) && dom(g.returnResult) == R
 //@   ensures [C11,C06] newmap: rb != nil ==> g.returnResult != nil && fresh(g.returnResult)
 //@   modifies frame rulerun, g.returnResult
@@ -454,8 +454,8 @@ package engine
 //@   oncall (*sync.WaitGroup).Wait
 //@     before c1failed := ite(stage == 0, cfailed, c1failed)
 //@   ensures [C05] invalid: rb == nil || nConcurrent <= 0 || mConcurrent <= 0 || nConcurrent + mConcurrent > len(S) ==> result != nil && nfork == 0
-//@   ensures [C05] contall: rb != nil && nConcurrent > 0 && mConcurrent > 0 && nConcurrent + mConcurrent <= len(S) && b ==> nfork == nConcurrent + mConcurrent && ((result != nil) <==> cfailed)
-//@   ensures [C05] stopfirst: rb != nil && nConcurrent > 0 && mConcurrent > 0 && nConcurrent + mConcurrent <= len(S) && !b ==> (c1failed ==> result != nil && nfork == nConcurrent) && (!c1failed ==> nfork == nConcurrent + mConcurrent && ((result != nil) <==> cfailed))
+//@   ensures [C05,C09] contall: rb != nil && nConcurrent > 0 && mConcurrent > 0 && nConcurrent + mConcurrent <= len(S) && b ==> nfork == nConcurrent + mConcurrent && ((result != nil) <==> cfailed)
+//@   ensures [C05,C09] stopfirst: rb != nil && nConcurrent > 0 && mConcurrent > 0 && nConcurrent + mConcurrent <= len(S) && !b ==> (c1failed ==> result != nil && nfork == nConcurrent) && (!c1failed ==> nfork == nConcurrent + mConcurrent && ((result != nil) <==> cfailed))
 //@   ensures [C05] nodirect: cursor == 0
 //@   ensures [C11] resultmap: rb != nil ==> !pend && fresh(g.returnResult) && dom(g.returnResult) == R
 //@   ensures [C11,C06] newmap: rb != nil ==> g.returnResult != nil && fresh(g.returnResult)
@@ -492,8 +492,8 @@ package engine
 //@     assert [C12] allnamed: len(rules) == len(names) && len(names) == nSort + mConcurrent
 //@   ensures [C12] ranimpliesall: cursor > 0 || nfork > 0 ==> len(rules) == len(names) && len(names) == nSort + mConcurrent && nSort > 0 && mConcurrent > 0
 //@   ensures [C12] invalid: rb == nil || nSort <= 0 || mConcurrent <= 0 || nSort + mConcurrent != len(names) ==> result != nil && cursor == 0 && nfork == 0
-//@   ensures [C05,C12] contall: cursor > 0 && b ==> cursor == nSort && nfork == mConcurrent && ((result != nil) <==> (failed || cfailed))
-//@   ensures [C05,C12] stopfirst: cursor > 0 && !b ==> (failed ==> result != nil && nfork == 0) && (!failed ==> cursor == nSort && nfork == mConcurrent && ((result != nil) <==> cfailed))
+//@   ensures [C05,C12,C09] contall: cursor > 0 && b ==> cursor == nSort && nfork == mConcurrent && ((result != nil) <==> (failed || cfailed))
+//@   ensures [C05,C12,C09] stopfirst: cursor > 0 && !b ==> (failed ==> result != nil && nfork == 0) && (!failed ==> cursor == nSort && nfork == mConcurrent && ((result != nil) <==> cfailed))
 //@   ensures [C11] resultmap: rb != nil ==> !pend && fresh(g.returnResult) && dom(g.returnResult) == R
 //@   ensures [C11,C06] newmap: rb != nil ==> g.returnResult != nil && fresh(g.returnResult)
 //@   modifies frame rulerun, g.returnResult
@@ -532,8 +532,8 @@ package engine
 //@     assert [C05,C12] barrier: stage == 1 && nfork == nConcurrent && (b || !cfailed) && cursor < mSort
 //@   ensures [C12] ranimpliesall: cursor > 0 || nfork > 0 ==> len(rules) == len(names) && len(names) == nConcurrent + mSort && nConcurrent > 0 && mSort > 0
 //@   ensures [C12] invalid: rb == nil || nConcurrent <= 0 || mSort <= 0 || nConcurrent + mSort != len(names) ==> result != nil && cursor == 0 && nfork == 0
-//@   ensures [C05,C12] contall: nfork > 0 && b ==> cursor == mSort && nfork == nConcurrent && ((result != nil) <==> (failed || cfailed))
-//@   ensures [C05,C12] stopfirst: nfork > 0 && !b ==> nfork == nConcurrent && (cfailed ==> result != nil && cursor == 0) && (!cfailed && failed ==> result != nil) && (!cfailed && !failed ==> cursor == mSort && result == nil)
+//@   ensures [C05,C12,C09] contall: nfork > 0 && b ==> cursor == mSort && nfork == nConcurrent && ((result != nil) <==> (failed || cfailed))
+//@   ensures [C05,C12,C09] stopfirst: nfork > 0 && !b ==> nfork == nConcurrent && (cfailed ==> result != nil && cursor == 0) && (!cfailed && failed ==> result != nil) && (!cfailed && !failed ==> cursor == mSort && result == nil)
 //@   ensures [C11] resultmap: rb != nil ==> !pend && fresh(g.returnResult) && dom(g.returnResult) == R
 //@   ensures [C11,C06] newmap: rb != nil ==> g.returnResult != nil && fresh(g.returnResult)
 //@   modifies frame rulerun, g.returnResult
@@ -577,8 +577,8 @@ package engine
 //@     before c1failed := ite(stage == 0, cfailed, c1failed)
 //@   ensures [C12] ranimpliesall: nfork > 0 ==> len(rules) == len(names) && len(names) == nConcurrent + mConcurrent && nConcurrent > 0 && mConcurrent > 0
 //@   ensures [C12] invalid: rb == nil || nConcurrent <= 0 || mConcurrent <= 0 || nConcurrent + mConcurrent != len(names) ==> result != nil && nfork == 0
-//@   ensures [C05,C12] contall: nfork > 0 && b ==> nfork == nConcurrent + mConcurrent && ((result != nil) <==> cfailed)
-//@   ensures [C05,C12] stopfirst: nfork > 0 && !b ==> (c1failed ==> result != nil && nfork == nConcurrent) && (!c1failed ==> nfork == nConcurrent + mConcurrent && ((result != nil) <==> cfailed))
+//@   ensures [C05,C12,C09] contall: nfork > 0 && b ==> nfork == nConcurrent + mConcurrent && ((result != nil) <==> cfailed)
+//@   ensures [C05,C12,C09] stopfirst: nfork > 0 && !b ==> (c1failed ==> result != nil && nfork == nConcurrent) && (!c1failed ==> nfork == nConcurrent + mConcurrent && ((result != nil) <==> cfailed))
 //@   ensures [C05,C12] nodirect: cursor == 0
 //@   ensures [C11] resultmap: rb != nil ==> !pend && fresh(g.returnResult) && dom(g.returnResult) == R
 //@   ensures [C11,C06] newmap: rb != nil ==> g.returnResult != nil && fresh(g.returnResult)
@@ -622,7 +622,7 @@ package engine
 //@   oncall (*sync.WaitGroup).Wait
 //@     after njoined := nfork
 //@     after joinedfail := cfailed
-//@   ensures [C13] errpolicy: rb != nil ==> ((result != nil) <==> cfailed) && njoined == nfork
+//@   ensures [C13,C09] errpolicy: rb != nil ==> ((result != nil) <==> cfailed) && njoined == nfork
 //@   ensures [C13] norb: rb == nil ==> result != nil && nfork == 0
 //@   ensures [C11] resultmap: rb != nil ==> fresh(g.returnResult) && dom(g.returnResult) == R
 //@   ensures [C11,C06] newmap: rb != nil ==> g.returnResult != nil && fresh(g.returnResult)
